@@ -1,6 +1,7 @@
 import AsyncFix.Lemmas.SchedAsc
 import AsyncFix.Lemmas.SchedSeq
 import AsyncFix.Lemmas.SchedEval
+import AsyncFix.Lemmas.SchedWitness
 
 /-!
 # C14 – concurrent senders never corrupt the outbound sequence
@@ -93,6 +94,18 @@ theorem atomic_send_prefix_logon (env : Env) (m : Msg) (c : Conn)
   funext c'
   cases sendCoreR env m { c' with role := roleInitiator } <;> rfl
 
+/-- non-vacuity: an established session; the first segment of an application send ends in the `drain`
+yield with the frame written and journaled under the number it allocated (7) -/
+example : st_NETWORK_CONN_ESTABLISHED < Witness.c0.state ∧
+    (sendMsgR Witness.env1 (Witness.appMsg "a") Witness.c0).isYield = true ∧
+    (writes (sendMsgR Witness.env1 (Witness.appMsg "a") Witness.c0).effs).map seqOf = [some 7] ∧
+    ((Rows.find 7 (sendMsgR Witness.env1 (Witness.appMsg "a") Witness.c0).conn.journal.out).isSome = true) := by
+  decide +kernel
+
+/-- non-vacuity of the Logon case -/
+example : Witness.cA.state = st_NETWORK_CONN_ESTABLISHED ∧
+    (Msg.mk' mLogon [(tEncryptMethod, "0"), (tHeartBtInt, "30")]).mtype = mLogon := by decide
+
 /-! ### 2. every schedule without a rewind -/
 
 /-- the state after a schedule -/
@@ -119,19 +132,6 @@ structure Holds (exact : Bool) (ts : List Task) (c0 : Conn) (s : SState) : Prop 
   /-- … which advanced by exactly the number of frames written -/
   counter : s.conn.sess.nextOut =
     c0.sess.nextOut + (newWrites s.effects).length + (if exact then 0 else (lost s.effects : Int))
-
-theorem caught_dup_not_mem {e : List Effect} (h : dupErr true e = false) :
-    Effect.caught .duplicateSeqNo ∉ e := by
-  induction e with
-  | nil => simp
-  | cons x r ih =>
-    intro hm
-    rcases List.mem_cons.mp hm with hx | hr
-    · subst hx; simp [dupErr] at h
-    · cases x with
-      | caught k => cases k <;> simp_all [dupErr]
-      | raised k => cases k <;> simp_all [dupErr]
-      | _ => simp_all [dupErr]
 
 /-- **C14, partial**: every schedule (any length) of any number of sender / tick / reader tasks in which
 no resend rewind window was opened. -/
@@ -162,6 +162,19 @@ theorem concurrent_senders_consecutive_partial (sr : Msg → Bool) (c0 : Conn) (
       | send env m => simp [ht, Task.inb] at h
       | tick env => simp [ht, Task.inb] at h
   · simpa using seg.cnt
+
+/-- non-vacuity: three senders, the watchdog and a reader answering a TestRequest, interleaved under
+back-pressure (`Witness.schedPlain`): the hypotheses hold, all tasks finish, four frames go out numbered
+7, 8, 9, 10 in wire order -/
+example : J Witness.c0 ∧ (∀ t ∈ Witness.tsPlain, t.wf = true) ∧
+    (run Witness.all Witness.c0 Witness.tsPlain false Witness.schedPlain).everRewound = false ∧
+    (run Witness.all Witness.c0 Witness.tsPlain false Witness.schedPlain).allDone = true ∧
+    lost (run Witness.all Witness.c0 Witness.tsPlain false Witness.schedPlain).effects = 0 ∧
+    (newWrites (run Witness.all Witness.c0 Witness.tsPlain false Witness.schedPlain).effects).map seqOf
+      = [some 7, some 8, some 9, some 10] ∧
+    (run Witness.all Witness.c0 Witness.tsPlain false Witness.schedPlain).log.map (·.1) = [0, 3, 1, 4] :=
+  ⟨Witness.J_c0, by decide, by decide +kernel, by decide +kernel, by decide +kernel, by decide +kernel,
+    by decide +kernel⟩
 
 /-- … and when no send found the transport gone, the numbers are consecutive from the initial counter and
 the counter (hence the stored one) is the highest number sent plus one -/
